@@ -6,8 +6,7 @@
    it; [shape] selects the optional / variable-length tail (with or without auxiliary revision, front-panel
    byte, optional reading bytes, session-info tail, error vs success form).  Each theorem: for ALL field
    values and ALL previous contents [old] of the layer, decoding the encoding yields exactly the values. *)
-From BMC Require Import Base Prim Layers Layers2 SpecLayers RoundTrip1 RoundTrip2 FsrProofs StringProofs.
-From BMCProps Require Import Tie.
+From BMC Require Import Base Prim Layers Layers2 SpecLayers RoundTrip1 RoundTrip2 FsrProofs StringProofs RejectProofs.
 
 
 Theorem C07_rmcp :forall old v bs, SpecEnc.rmcp v = Some bs ->
@@ -125,3 +124,84 @@ Theorem C07_strings_too_short_rejected :
   (forall b c, (length b < c - Nat.div c 4)%nat -> Impl.decode_packed6 b c = Err) /\
   (forall b c, (c <> 0)%nat -> (length b < c \/ length b < 2)%nat -> Impl.decode_latin1 b c = Err).
 Proof. exact (conj bcd_plus_short (conj packed6_short latin1_short)). Qed.
+
+(* ---------------- malformed responses are rejected with an error ---------------- *)
+(* an IPMI message is accepted only if it has at least 7 bytes and BOTH checksums are right *)
+Theorem C07_message_checksums_required : forall old bs m, decode_message old bs = Ok m ->
+  (7 <= length bs)%nat /\ nth 2 bs 0 = Impl.checksum (firstn 2 bs) /\
+  nth (length bs - 1) bs 0 = Impl.checksum (firstn (length bs - 4) (skipn 3 bs)).
+Proof. exact message_accept_inv. Qed.
+Theorem C07_bad_checksum1_rejected : forall old bs, (7 <= length bs)%nat ->
+  nth 2 bs 0 <> Impl.checksum (firstn 2 bs) -> decode_message old bs = Err.
+Proof. exact message_bad_checksum1. Qed.
+Theorem C07_bad_checksum2_rejected : forall old bs, (7 <= length bs)%nat ->
+  nth 2 bs 0 = Impl.checksum (firstn 2 bs) ->
+  nth (length bs - 1) bs 0 <> Impl.checksum (firstn (length bs - 4) (skipn 3 bs)) -> decode_message old bs = Err.
+Proof. exact message_bad_checksum2. Qed.
+(* every single-byte corruption of an accepted message - of a checksum or of any byte a checksum covers,
+   i.e. of ANY byte - is rejected *)
+Theorem C07_single_byte_corruption_rejected : forall old old' pre a a' post m,
+  a < 256 -> a' < 256 -> a <> a' ->
+  decode_message old (pre ++ a :: post) = Ok m -> decode_message old' (pre ++ a' :: post) = Err.
+Proof. exact message_single_byte_corruption. Qed.
+(* a v2.0 session wrapper is accepted only if header + length field fit in the data; the payload is exactly
+   that many bytes *)
+Theorem C07_wrapper_length_within_data : forall sign old bs w, decode_v2session sign old bs = Ok w ->
+  (v2_header_len (v2_ptype w) + N.to_nat (v2_length w) <= length bs)%nat /\
+  v2_payload w = firstn (N.to_nat (v2_length w)) (skipn (v2_header_len (v2_ptype w)) bs).
+Proof. exact v2session_accept_inv. Qed.
+Theorem C07_wrapper_length_exceeds_rejected : forall sign old d1 i0 i1 i2 i3 s0 s1 s2 s3 l0 l1 rest,
+  N.land d1 0x3f <> 2 -> (length rest < N.to_nat (le16 l0 l1))%nat ->
+  decode_v2session sign old (6 :: d1 :: i0 :: i1 :: i2 :: i3 :: s0 :: s1 :: s2 :: s3 :: l0 :: l1 :: rest) = Err.
+Proof. exact v2session_length_exceeds. Qed.
+(* the v1.5 wrapper does NOT compare its length byte with the data (observation O12): what it does instead *)
+Theorem C07_v1_wrapper_length_not_checked : forall old bs w, decode_v1session old bs = Ok w ->
+  let hdr := if v1_authtype w =? 0 then 10%nat else 26%nat in
+  (hdr <= length bs)%nat /\ v1_authtype w = nth 0 bs 0 /\ v1_length w = nth (hdr - 1) bs 0 /\ v1_payload w = skipn hdr bs.
+Proof. exact v1session_accept_inv. Qed.
+(* every layer: a body shorter than the layer's minimum (and the conditional minimums of optional or counted
+   parts) is an error *)
+Theorem C07_short_bodies_rejected :
+  (forall old bs, (length bs < 4)%nat -> decode_rmcp old bs = Err) /\
+  (forall old bs, (length bs < 1)%nat -> decode_selector old bs = Err) /\
+  (forall old bs, (length bs < 10)%nat -> decode_v1session old bs = Err) /\
+  (forall old bs, nth 0 bs 0 <> 0 -> (length bs < 26)%nat -> decode_v1session old bs = Err) /\
+  (forall sign old bs, (length bs < 12)%nat -> decode_v2session sign old bs = Err) /\
+  (forall sign old bs, (length bs < 18)%nat -> N.land (nth 1 bs 0) 0x3f = 2 -> decode_v2session sign old bs = Err) /\
+  (forall dec old bs, (length bs < 17)%nat -> decode_aescbc dec old bs = Err) /\
+  (forall dec old bs, Nat.modulo (length bs) 16 <> 0%nat -> decode_aescbc dec old bs = Err) /\
+  (forall old bs, (length bs < 7)%nat -> decode_message old bs = Err) /\
+  (forall old bs, length bs = 7%nat -> N.shiftr (nth 1 bs 0) 2 mod 2 <> 0 -> decode_message old bs = Err) /\
+  (forall old bs, (length bs < message_min_len (N.shiftr (nth 1 bs 0%N) 2))%nat -> decode_message old bs = Err) /\
+  (forall old bs, length bs <> 1%nat -> (length bs < 7)%nat -> decode_opensessionrsp old bs = Err) /\
+  (forall old bs, length bs <> 36%nat -> nth (if Nat.eqb (length bs) 1 then 0 else 1)%nat bs 0 = 0 ->
+                  decode_opensessionrsp old bs = Err) /\
+  (forall old bs, (length bs < 28)%nat -> decode_rakp1 old bs = Err) /\
+  (forall old bs, (length bs < 28 + N.to_nat (nth 27 bs 0%N))%nat -> decode_rakp1 old bs = Err) /\
+  (forall old bs, (length bs < 8)%nat -> decode_rakp2 old bs = Err) /\
+  (forall old bs, nth 1 bs 0 = 0 -> (length bs < 40)%nat -> decode_rakp2 old bs = Err) /\
+  (forall old bs, (length bs < 8)%nat -> decode_rakp4 old bs = Err) /\
+  (forall old bs, (length bs < 11)%nat -> decode_deviceid old bs = Err) /\
+  (forall old bs, (length bs < 3)%nat -> decode_chassis old bs = Err) /\
+  (forall old bs, (length bs < 8)%nat -> decode_authcaps old bs = Err) /\
+  (forall old bs, (length bs < 1)%nat -> decode_ciphersuites old bs = Err) /\
+  (forall old bs, (length bs < 3)%nat -> decode_sessioninfo old bs = Err) /\
+  (forall old bs, ~ (nth 0 bs 0 = 0 /\ length bs = 3%nat) -> (length bs < 6)%nat -> decode_sessioninfo old bs = Err) /\
+  (forall old bs, length bs <> 1%nat -> decode_setpriv old bs = Err) /\
+  (forall old bs, (length bs < 16)%nat -> decode_guid old bs = Err) /\
+  (forall old bs, (length bs < 2)%nat -> decode_reserve old bs = Err) /\
+  (forall old bs, (length bs < 2)%nat -> decode_getsdrrsp old bs = Err) /\
+  (forall old bs, (length bs < 5)%nat -> decode_sdrhdr old bs = Err) /\
+  (forall old bs, (length bs < 14)%nat -> decode_sdrrepoinfo old bs = Err) /\
+  (forall old bs, (length bs < 3)%nat -> decode_sensorreading old bs = Err) /\
+  (forall old bs, (length bs < 43)%nat -> decode_fsr old bs = Err) /\
+  (forall old bs, (length bs < 3 + 3)%nat -> decode_dcmicaps old bs = Err) /\
+  (forall old bs, (length bs < 3 + 4)%nat -> decode_dcmimand old bs = Err) /\
+  (forall old bs, (length bs < 3 + 2)%nat -> decode_dcmiopt old bs = Err) /\
+  (forall old bs, (length bs < 3 + 3)%nat -> decode_dcmimgmt old bs = Err) /\
+  (forall old bs, (length bs < 3 + 1)%nat -> decode_dcmipower old bs = Err) /\
+  (forall old bs, (4 <= length bs)%nat -> (length bs < 4 + N.to_nat (nth 3 bs 0%N))%nat -> decode_dcmipower old bs = Err) /\
+  (forall old bs, (length bs < 17)%nat -> decode_powerreading old bs = Err) /\
+  (forall old bs, (length bs < 2)%nat -> decode_dcmisensor old bs = Err) /\
+  (forall old bs, (2 <= length bs)%nat -> (length bs < 2 + N.to_nat (nth 1 bs 0%N) * 2)%nat -> decode_dcmisensor old bs = Err).
+Proof. exact all_short_rejected. Qed.
